@@ -657,17 +657,21 @@ class tzfile(_tzinfo):
                 else:
                     out.ttinfo_before = out.ttinfo_list[0]
 
-        # Now fix transition times to become relative to wall time.
+        # Now compute the transition times relative to wall time, and the
+        # dst offsets of the daylight ttinfos.
         #
-        # I'm not sure about this. In my tests, the tz source file
-        # is setup to wall time, and in the binary file isstd and
-        # isgmt are off, so it should be in wall time. OTOH, it's
-        # always in gmt time. Let me know if you have comments
-        # about this.
+        # A transition at UTC time T from offset a to offset b is seen on the
+        # wall clock as follows: times before T + a belong to the period
+        # before the transition and times from T + b on to the period after
+        # it. If the offset increases (a < b), the wall times in between do
+        # not exist and any boundary within [T + a, T + b] separates the two
+        # periods; if it decreases, the wall times in [T + b, T + a) occur
+        # twice and the boundary has to be T + b, so that the `fold` attribute
+        # can select the first occurrence (see is_ambiguous). T + min(a, b)
+        # is right in both cases, whatever the isdst flags are.
         lastdst = None
         lastoffset = None
         lastdstoffset = None
-        lastbaseoffset = None
         out.trans_list = []
 
         for i, tti in enumerate(out.trans_idx):
@@ -685,23 +689,16 @@ class tzfile(_tzinfo):
                     tti.dstoffset = datetime.timedelta(seconds=dstoffset)
                     lastdstoffset = dstoffset
 
-            # If a time zone changes its base offset during a DST transition,
-            # then you need to adjust by the previous base offset to get the
-            # transition time in local time. Otherwise you use the current
-            # base offset. Ideally, I would have some mathematical proof of
-            # why this is true, but I haven't really thought about it enough.
-            baseoffset = offset - dstoffset
-            adjustment = baseoffset
-            if (lastbaseoffset is not None and baseoffset != lastbaseoffset
-                    and tti.isdst != lastdst):
-                # The base DST has changed
-                adjustment = lastbaseoffset
+            if lastoffset is None:
+                prevoffset = out.ttinfo_before.offset
+            else:
+                prevoffset = lastoffset
 
             lastdst = tti.isdst
             lastoffset = offset
-            lastbaseoffset = baseoffset
 
-            out.trans_list.append(out.trans_list_utc[i] + adjustment)
+            out.trans_list.append(out.trans_list_utc[i] +
+                                  min(prevoffset, offset))
 
         out.trans_idx = tuple(out.trans_idx)
         out.trans_list = tuple(out.trans_list)
@@ -797,7 +794,7 @@ class tzfile(_tzinfo):
         timestamp = _datetime_to_timestamp(dt)
         tti = self._get_ttinfo(idx)
 
-        if idx is None or idx <= 0:
+        if idx is None or idx < 0:
             return False
 
         od = self._get_ttinfo(idx - 1).offset - tti.offset
@@ -810,7 +807,7 @@ class tzfile(_tzinfo):
 
         # If we have no transitions, return the index
         _fold = self._fold(dt)
-        if idx is None or idx == 0:
+        if idx is None or idx < 0:
             return idx
 
         # If it's ambiguous and we're in a fold, shift to a different index.
